@@ -40,11 +40,20 @@ fn run_case(s: &str) -> (String, String, String, String) {
         None => "N".into(),
     };
     let case = format!("addr {} {}", to_hex(s.as_bytes()), col);
+    // the conversion accepts any string: a panic or an error is a failure of this case, not of the harness
+    let conv = std::panic::catch_unwind(|| {
+        let r1 = s.to_remote_addr().ok()?;
+        let r2 = s.to_string().to_remote_addr().ok()?;
+        let r3 = (&s.to_string()).to_remote_addr().ok()?;
+        let r4 = r1.to_remote_addr().ok()?;
+        Some((r1, r2, r3, r4))
+    });
     // the four string-ish impls must agree
-    let r1 = s.to_remote_addr().unwrap();
-    let r2 = s.to_string().to_remote_addr().unwrap();
-    let r3 = (&s.to_string()).to_remote_addr().unwrap();
-    let r4 = r1.to_remote_addr().unwrap();
+    let (r1, r2, r3, r4) = match conv {
+        Ok(Some(x)) => x,
+        Ok(None) => return (case, "error".into(), "FAIL the conversion returned an error".into(), "text".into()),
+        Err(_) => return (case, "panic".into(), "FAIL the conversion panicked".into(), if s.is_ascii() { "text".into() } else { "text,nonascii".into() }),
+    };
     let imp = observe(&r1);
     // direct oracle: the property statement on the implementation's own output
     let mut ok = r1 == r2 && r1 == r3 && r1 == r4;
